@@ -734,6 +734,213 @@ func init() {
 		}
 		return RV{T: v.T.Underlying().(*types.Map).Elem(), V: copyVal(e.v)}
 	})
+	// ---- additions: constructing and mutating values through reflection ----
+	rtOf := func(in *Interp, v Value) types.Type {
+		itf, ok := v.(Iface)
+		if !ok || itf.T == nil {
+			in.rpanic("reflect: nil Type")
+		}
+		return itf.V.(RT).T
+	}
+	reg("reflect.Zero", func(in *Interp, fr *frame, a []Value) Value {
+		t := rtOf(in, a[0])
+		return RV{T: t, V: zero(t)}
+	})
+	reg("reflect.New", func(in *Interp, fr *frame, a []Value) Value {
+		t := rtOf(in, a[0])
+		cell := new(Value)
+		*cell = zero(t)
+		return RV{T: types.NewPointer(t), V: cell}
+	})
+	reg("reflect.MakeMapWithSize", func(in *Interp, fr *frame, a []Value) Value {
+		t := rtOf(in, a[0])
+		mt, ok := t.Underlying().(*types.Map)
+		if !ok {
+			in.rpanic("reflect.MakeMapWithSize of non-map type")
+		}
+		return RV{T: t, V: newMap(mt.Key())}
+	})
+	reg("reflect.MakeMap", func(in *Interp, fr *frame, a []Value) Value {
+		t := rtOf(in, a[0])
+		mt, ok := t.Underlying().(*types.Map)
+		if !ok {
+			in.rpanic("reflect.MakeMap of non-map type")
+		}
+		return RV{T: t, V: newMap(mt.Key())}
+	})
+	reg("(reflect.Value).SetMapIndex", func(in *Interp, fr *frame, a []Value) Value {
+		v := a[0].(RV)
+		if in.rvKind(v) != kMap {
+			in.rpanic(valueErr("reflect.Value.SetMapIndex", in.rvKind(v)))
+		}
+		if v.RO {
+			in.rpanic("reflect: reflect.Value.SetMapIndex using value obtained using unexported field")
+		}
+		m, _ := v.get().(*Map)
+		k := a[1].(RV)
+		e := a[2].(RV)
+		if e.T == nil {
+			in.mapDelete(m, k.get())
+			return nil
+		}
+		if m == nil {
+			in.tpanic("nil-map", "assignment to entry in nil map")
+		}
+		val := copyVal(e.get())
+		if _, isI := v.T.Underlying().(*types.Map).Elem().Underlying().(*types.Interface); isI {
+			if _, already := val.(Iface); !already {
+				val = Iface{T: canonType(e.T), V: val}
+			}
+		}
+		in.mapSet(m, k.get(), val)
+		return nil
+	})
+	reg("(reflect.Value).Convert", func(in *Interp, fr *frame, a []Value) Value {
+		v := a[0].(RV)
+		t := rtOf(in, a[1])
+		if v.T == nil || !types.ConvertibleTo(v.T, t) {
+			in.rpanic("reflect.Value.Convert: value of type " + reflectTypeString(v.T) + " cannot be converted to type " + reflectTypeString(t))
+		}
+		if types.Identical(v.T.Underlying(), t.Underlying()) {
+			return RV{T: t, V: copyVal(v.get()), RO: v.RO}
+		}
+		if _, isI := t.Underlying().(*types.Interface); isI {
+			return RV{T: t, V: Iface{T: canonType(v.T), V: copyVal(v.get())}, RO: v.RO}
+		}
+		panic(engineErr("reflect.Value.Convert between different underlying types"))
+	})
+	reg("(reflect.Value).FieldByIndex", func(in *Interp, fr *frame, a []Value) Value {
+		v := a[0].(RV)
+		idx := a[1].([]Value)
+		for n, iv := range idx {
+			i := asInt(iv)
+			if n > 0 && in.rvKind(v) == kPointer {
+				if st, ok := v.T.Underlying().(*types.Pointer).Elem().Underlying().(*types.Struct); ok && st != nil {
+					p, _ := v.get().(*Value)
+					if p == nil {
+						in.rpanic("reflect: indirection through nil pointer to embedded struct")
+					}
+					v = RV{T: v.T.Underlying().(*types.Pointer).Elem(), Addr: p, RO: v.RO}
+				}
+			}
+			v = in.rvField(v, i)
+		}
+		return v
+	})
+	reg("reflect.VisibleFields", func(in *Interp, fr *frame, a []Value) Value {
+		t := rtOf(in, a[0])
+		st, ok := t.Underlying().(*types.Struct)
+		if !ok {
+			in.rpanic("reflect.VisibleFields of non-struct type")
+		}
+		// breadth-first over embedded structs, shallower names hide deeper ones (as reflect.VisibleFields):
+		// a plain depth-ordered walk keeping every field whose name is not hidden at a shallower depth
+		type ent struct {
+			f     *types.Var
+			tag   string
+			index []int
+		}
+		var all []ent
+		var walk func(st *types.Struct, prefix []int, seen map[*types.Struct]bool)
+		walk = func(st *types.Struct, prefix []int, seen map[*types.Struct]bool) {
+			if seen[st] {
+				return
+			}
+			seen[st] = true
+			for i := 0; i < st.NumFields(); i++ {
+				f := st.Field(i)
+				idx := append(append([]int{}, prefix...), i)
+				all = append(all, ent{f, st.Tag(i), idx})
+				if f.Embedded() {
+					ft := f.Type()
+					if p, isP := ft.Underlying().(*types.Pointer); isP {
+						ft = p.Elem()
+					}
+					if est, isS := ft.Underlying().(*types.Struct); isS {
+						walk(est, idx, seen)
+					}
+				}
+			}
+			delete(seen, st)
+		}
+		walk(st, nil, map[*types.Struct]bool{})
+		// hide names that occur at a shallower depth (or several times at the same depth)
+		best := map[string]int{}
+		count := map[string]int{}
+		for _, e := range all {
+			d, ok := best[e.f.Name()]
+			if !ok || len(e.index) < d {
+				best[e.f.Name()] = len(e.index)
+				count[e.f.Name()] = 1
+			} else if len(e.index) == d {
+				count[e.f.Name()]++
+			}
+		}
+		var out []Value
+		for _, e := range all {
+			if len(e.index) != best[e.f.Name()] || count[e.f.Name()] > 1 {
+				continue
+			}
+			pkgPath := ""
+			if !e.f.Exported() && e.f.Pkg() != nil {
+				pkgPath = e.f.Pkg().Path()
+			}
+			var idx []Value
+			for _, i := range e.index {
+				idx = append(idx, goInt(i))
+			}
+			out = append(out, Struct{mkStr(e.f.Name()), mkStr(pkgPath), in.rtypeIface(e.f.Type()), mkStr(e.tag),
+				Int{K: types.Uintptr, C: uint64(e.index[len(e.index)-1] * 8)}, idx, mkBool(e.f.Embedded())})
+		}
+		return out
+	})
+	reg("(*reflect.MapIter).Reset", func(in *Interp, fr *frame, a []Value) Value {
+		it := iterOf(a[0])
+		v := a[1].(RV)
+		if v.T == nil {
+			it.m, it.pos, it.cur = nil, 0, -1
+			return nil
+		}
+		m, _ := v.get().(*Map)
+		it.m, it.mt, it.pos, it.cur = m, v.T.Underlying().(*types.Map), 0, -1
+		return nil
+	})
+	setIter := func(in *Interp, a []Value, key bool) Value {
+		v := a[0].(RV)
+		if v.Addr == nil {
+			in.rpanic("reflect: reflect.Value.SetIterKey/SetIterValue using unaddressable value")
+		}
+		it := iterOf(a[1])
+		if it.cur < 0 {
+			in.rpanic("reflect: Value.SetIterKey/SetIterValue called before Next")
+		}
+		e := it.m.entries[it.cur]
+		src := e.v
+		if key {
+			src = e.k
+		}
+		in.onWrite(v.Addr)
+		*v.Addr = copyVal(src)
+		return nil
+	}
+	reg("(reflect.Value).SetIterKey", func(in *Interp, fr *frame, a []Value) Value { return setIter(in, a, true) })
+	reg("(reflect.Value).SetIterValue", func(in *Interp, fr *frame, a []Value) Value { return setIter(in, a, false) })
+	reg("(reflect.Value).Set", func(in *Interp, fr *frame, a []Value) Value {
+		v := a[0].(RV)
+		if v.Addr == nil || v.RO {
+			in.rpanic("reflect: reflect.Value.Set using unaddressable value")
+		}
+		x := a[1].(RV)
+		val := copyVal(x.get())
+		if _, isI := v.T.Underlying().(*types.Interface); isI {
+			if _, already := val.(Iface); !already {
+				val = Iface{T: canonType(x.T), V: val}
+			}
+		}
+		in.onWrite(v.Addr)
+		*v.Addr = val
+		return nil
+	})
 	reg("(reflect.StructTag).Get", func(in *Interp, fr *frame, a []Value) Value {
 		tag := a[0].(Str).mustConcrete()
 		key := a[1].(Str).mustConcrete()
